@@ -60,6 +60,9 @@ def run_session(kind, auto, schedule, hb_plan=(), seed=0, connect_plan=(), disc_
                         sim.log("lost")
                         sim.chan = None
                         tr.lose(ConnectionResetError("reset by peer"))
+                elif e in ("sess_close", "sess_timeout", "sess_close_tcp"):          # the server ends the secure session under the tunnel
+                    if getattr(sim, "srv", None) is not None:
+                        sim.server_session_status("STATUS_TIMEOUT" if e == "sess_timeout" else "STATUS_CLOSE", then_close=e.endswith("tcp"))
                 elif e == "user_disc" and not st["user"]:
                     st["task"] = asyncio.ensure_future(user_disc())
                 elif e == "send" and not st["user"]:                 # a telegram handed to the tunnel at this instant (it may have to wait for the tunnel)
@@ -128,7 +131,7 @@ def run(ck):
     ck.add(deviation_model_counterexample="is violated" in dev.error)
     plans = []
     c0s = {}
-    for kind in ("udp", "tcp"):
+    for kind in ("udp", "tcp", "secure"):
         for auto in (True, False):
             _, base = run_session(kind, auto, [], seed=ck.seed)
             n, c0 = base["iters"], base["connected_iter"]
@@ -143,10 +146,16 @@ def run(ck):
                     for d in (0, 1, 2, 3) if ck.tier == "thorough" or k % 3 == 0 else (1,):
                         plans.append((kind, auto, [(k, "user_disc"), (k + d, "server_disc")], ()))
                         plans.append((kind, auto, [(k, "server_disc"), (k + d, "user_disc")], ()))
-                if kind == "tcp":
+                if kind != "udp":
                     plans.append((kind, auto, [(k, "tcp_lost")], ()))                       # the TCP connection drops
                     if k > c0 and (k % 4 == 1 or ck.tier == "thorough"):
                         plans.append((kind, auto, [(k, "tcp_lost"), (k + 2, "user_disc")], ()))
+                if kind == "secure" and k > c0 - 4:
+                    for e_ in ("sess_close", "sess_timeout", "sess_close_tcp"):
+                        plans.append((kind, auto, [(k, e_)], ()))
+                    if k % 3 == 0 or ck.tier == "thorough":
+                        plans.append((kind, auto, [(k, "sess_close"), (k + 2, "user_disc")], ()))
+                        plans.append((kind, auto, [(k, "sess_close_tcp"), (k + 1, "server_disc")], ()))
             # the user disconnects at every iteration of a reconnect caused by four lost heartbeats (gateway answers the
             # reconnect at once / ignores its DisconnectRequest / loses the first ConnectRequest)
             if auto:
@@ -158,10 +167,23 @@ def run(ck):
                     if len(hb4) >= 4:
                         done = [e["it"] for e in ev2 if e["ev"] == "state_cb" and e["state"] == "CONNECTED" and e["it"] > hb4[3]]
                         hi = (done[0] if done else hb4[3] + 60) + 4
+                        lost_t = [e["t"] for e in ev2 if e["ev"] == "state_cb" and e["state"] == "DISCONNECTED" and e["it"] >= hb4[3]]
                         for k in range(hb4[3], hi, 1 if ck.tier == "thorough" or kind == "udp" else 2):
                             plans.append((kind, auto, [(k, "user_disc")], ("none",) * 4, extra))
+                        # ... and the server (or the network) ends the new tunnel at every iteration of that reconnect - also in the iteration
+                        # in which the reconnect finishes - and once more a few iterations later
+                        if not extra or ck.tier == "thorough":
+                            for k in range(hb4[3], hi):
+                                for e_ in ("server_disc",) if kind == "udp" else ("server_disc", "tcp_lost"):
+                                    plans.append((kind, auto, [(k, e_)], ("none",) * 4, extra))
+                                    for d in (1, 2, 4) if ck.tier == "quick" else range(1, 9):
+                                        plans.append((kind, auto, [(k, e_), (k + d, "server_disc")], ("none",) * 4, extra))
+                                    # ... the reconnect that follows loses its first ConnectRequest; the next loss comes while it waits / retries
+                                    if not extra and lost_t and (k >= (done[0] if done else hb4[3]) - 2 or ck.tier == "thorough"):
+                                        for d in (0.3, 0.8, 1.2, 1.6, 2.5) if ck.tier == "quick" else [x / 10 for x in range(1, 30, 2)]:      # (the connect request times out after 1 s, the retry waits 1 s)
+                                            plans.append((kind, auto, [(k, e_), (("t", lost_t[0] / 1000 + d), "server_disc")], ("none",) * 4,
+                                                          {"connect_plan": ["ok", "ok", "lost"]}))
                         # ... and at instants inside the waits of the reconnect (no loop iteration happens there by itself)
-                        lost_t = [e["t"] for e in ev2 if e["ev"] == "state_cb" and e["state"] == "DISCONNECTED" and e["it"] >= hb4[3]]
                         if lost_t:
                             for d in (0.1, 0.4, 0.9, 1.1, 1.6, 2.1, 2.6, 3.4) if ck.tier == "quick" else [x / 10 for x in range(1, 60, 2)]:
                                 plans.append((kind, auto, [(("t", lost_t[0] / 1000 + d), "user_disc")], ("none",) * 4, extra))
